@@ -336,6 +336,22 @@ def settle_lost_anchors(unit, obs, rep):
             o.detail = 'proof-carrying anchor lost (%s) and no failing input found natively\n' % '; '.join(unit.anchor_lost) + o.detail
 
 
+def unspliceable(rep, pid, oid, function, err):
+    """The contract could not be spliced onto the current text at all (a rewrite rule or item anchor no longer matches).
+    That alone is undecided (exit 2).  But the property-level obligation is still checked for a failing input by the native
+    small-scope run of the real code through its public API: a concrete input that contradicts the postcondition is a
+    violation with a replay, whatever shape the code has now; without one the obligation stays undecided."""
+    from . import native
+    ob = Obligation(oid, function, 'property', 'verus/z3', status='failed',
+                    detail='the contract could not be spliced onto the current text (%s); postcondition checked against the real code by the native small-scope run instead' % err)
+    rep.add(ob)
+    native.search_on_failure(rep, pid, [ob])
+    if (ob.replay or {}).get('input') is None:
+        ob.status = 'undecided'
+        ob.detail = 'LostAnchor: %s (no failing input found natively either)\n' % err + ob.detail
+    return ob
+
+
 def canary(report):
     """one deliberately false obligation: Verus must reject it (guards against a verifier that accepts everything)"""
     d = os.path.join(BUILD, 'verus')
